@@ -470,10 +470,16 @@ class DoomedGen:
                 bad.append(('catalog-joliet-name-too-long', 'joliet_cat', '/' + 'j' * 70))
             if m.has('udf'):
                 bad.append(('catalog-udf-name-too-long', 'udf_cat', '/' + 'u' * 260))
+            if not (m.rr or lvl == 4):
+                deep = [d for d in m.dirs('iso') if m.depth(d) == 7]
+                if deep:
+                    bad.append(('catalog-iso-name-too-deep', 'cat', M.join(r.choice(deep), 'CAT.;1')))
+            if m.rr:
+                bad.append(('catalog-rock-ridge-name-overflows-continuation-area', 'rr_cat', 'c' * r.choice((2100, 3000))))
             cause, key, val = r.choice(bad)
             op[key] = val
             op['media'] = 'noemul'
-            if m.rr:
+            if m.rr and key != 'rr_cat':
                 op['rr_cat'] = 'cat%d' % r.randrange(10 ** 6)
             return _finish(op, 'boot:' + cause, True, 'boot-parameters')
         # catalog name collides with an existing name
